@@ -7,12 +7,15 @@ from sa import rules as K
 UNITS = ['net/http/message.cpp', 'net/http/headers.cpp', 'net/http/body.cpp']
 FLOOR = 18
 P = 'C13'
-CLAIM = ('[Besides the bounded-write clause, two structural necessary conditions of the framing clauses are decided: the header-terminator search looks back at least len(terminator)-1 bytes before the newly received bytes (fragmentation independence of header detection), and the chunk-line reader never reports progress on end-of-stream (no endless loop on a truncated chunked body).] '
-         'Decides ONLY the bounded-write clause of the property for net/http/{message,headers,body}.cpp: every raw write into the '
-         'caller-supplied message buffer or the chunk line buffer is dominated by a capacity test over the same quantities (receive, '
-         'append, header insert/append/index growth, the header terminator, the request line of plain and proxied requests, the status '
-         'line, the chunk-line receive whose length is capacity minus fill); the header is parsed only after its terminator was found and '
-         'only once. Independence from fragmentation, framing exactness, termination and over-reads inside the buffer are NOT decided.')
+CLAIM = ('Decides for net/http/{message,headers,body}.cpp: (1) the bounded-write clause - every raw write into the caller-supplied '
+         'message buffer or the chunk line buffer is dominated by a capacity test over the same quantities (receive, append, header '
+         'insert/append/index growth, the header terminator, the request line of plain and proxied requests, the status line, the '
+         'chunk-line receive whose length is capacity minus fill); the header is parsed only after its terminator was found and only '
+         'once; (2) two structural pre-conditions of the framing clauses - the search for the literal header terminator starts at the '
+         'buffer start or at least len(terminator)-1 bytes before the newly received bytes (a terminator straddling two recv() results '
+         'is found), and the chunk-line reader reports progress (0) after recv() only if bytes arrived, end-of-stream being an error '
+         '(its caller loops on 0: no endless loop on a truncated chunked body). Framing exactness, fragmentation independence beyond '
+         'header detection, termination in general and over-reads inside the buffer are NOT decided.')
 M = 'photon::net::http::'
 RAW = ('memcpy', 'memmove', 'photon::net::http::buf_append', 'strcpy')
 
